@@ -16,6 +16,18 @@ theorem goBlank_arith (op : String) (h : arithOps.contains op = true) : goBlank 
   simp [arithOps] at h
   rcases h with rfl | rfl | rfl | rfl | rfl | rfl <;> decide
 
+/-- operators are never SP texts: the repaired iterator (skipSP) collects the same tokens from a node whose terminals are operators -/
+theorem spText_arith (s : String) (h : arithOps.contains s = true) : spText s = false := by
+  simp only [arithOps, List.contains_eq_mem, List.mem_cons, List.not_mem_nil, or_false, decide_eq_true_eq] at h
+  rcases h with rfl | rfl | rfl | rfl | rfl | rfl <;> decide
+
+theorem opTokens_eq (sk : Bool) (t : Tree) (h : (litTokens t).all arithOps.contains = true) : opTokens sk t = litTokens t := by
+  unfold opTokens
+  apply List.filter_eq_self.2
+  intro s hs
+  have := spText_arith s ((List.all_eq_true.1 h) s hs)
+  simp [this]
+
 section Arith
 variable {N : Names} (hN : N.ok = true)
 include hN
@@ -89,7 +101,10 @@ theorem bArith_proper (rule : String) (hr : arithRules.contains rule = true) (su
   simp only [opKids, hname]
   have hb : bArith N (g' + 1) (N.nd rule (sub l :: (parts.map (fun p => [N.lf (opTok p.1) p.1, sub p.2])).flatten)) = .ok (.arith l parts) := by
     rw [bArith]
-    simp only [litTokens, ruleKids, kids_nd, List.filterMap_cons, List.filter_cons, hl, litTok_nd, isNode_nd, if_true]
+    have hlt : litTokens (N.nd rule (sub l :: (parts.map (fun p => [N.lf (opTok p.1) p.1, sub p.2])).flatten)) = parts.map (·.1) := by
+      simp only [litTokens, kids_nd, List.filterMap_cons, hl, litTok_nd, hlit]
+    rw [opTokens_eq _ _ (by rw [hlt]; exact hall), hlt]
+    simp only [ruleKids, kids_nd, List.filter_cons, hl, isNode_nd, if_true]
     rw [← hl]
     simp only [hlit, hrk, hall, Bool.not_true, Bool.false_eq_true, if_false]
     cases parts with
@@ -117,7 +132,7 @@ theorem bArith_unit (rule : String) (hr : towerRules.contains rule = true) (r : 
   simp [towerRules, arithRules] at hr
   rcases hr with rfl | rfl | rfl | rfl <;>
   · rw [show g + 2 = (g + 1) + 1 from rfl, bExpr]
-    bsimp [bArith, arithOps]
+    bsimp [bArith, arithOps, opTokens]
 
 section Levels
 variable (recT : Expr → Tree) (recW : Expr → Bool) (Hrec : RecOK N recT recW)
@@ -150,7 +165,8 @@ theorem bExpr_tUnary (e : Expr) (g : Nat) (hw : wUnary recW e = true) (hg : 2 * 
     rw [show g' + 2 = (g' + 1) + 1 from rfl, bExpr]
     rw [hx] at hk ⊢
     have hmem : op ∈ arithOps := by simpa using hop
-    bsimp [bArith, hb, hmem, hk, Except.map]
+    have hsp := spText_arith op hop
+    bsimp [bArith, opTokens, hb, hsp, hmem, hk, Except.map]
   · -- unit
     rename_i hne
     obtain ⟨r, ks, hx⟩ := tNonArith_node hN recT recW Hrec e
